@@ -262,7 +262,7 @@ CROSS_A = ["CC(C)=O", "CC=O", "O=Cc1ccccc1", "CC(=O)OC", "CC(O)=O", "CC(N)=O", "
            "C=Cc1ccccc1", "CC=C", "C=C", "O=C1CCCCC1=O", "CCOC(=O)CC(C)=O", "OCC=O", "NC(=O)c1ccccc1", "CS(C)=O"]
 CROSS_B = ["c1ccccc1P(c1ccccc1)c1ccccc1", "c1ccccc1P(=O)(c1ccccc1)c1ccccc1", "CP(C)C", "COP(=O)(OC)OC", "CP(=O)(O)O",
            "c1ccccc1P(c1ccccc1)(c1ccccc1)=C", "CP(C)(C)=O", "N#[N+][CH-]C(=O)OC", "[N-]=[N+]=CC(=O)OC", "CP(Cl)Cl",
-           "C=[N+]=[N-]", "CCP(=O)(CC)CC", "OP(O)O", "ClP(Cl)Cl", "CSC", "CS(=O)Cl", "CN", "CCl", "C[Mg]Br", "CB(O)O"]
+           "C[N+]#N", "c1ccccc1[N+]#N", "CC[N+]#N", "C=[N+]=[N-]", "CCP(=O)(CC)CC", "OP(O)O", "ClP(Cl)Cl", "CSC", "CS(=O)Cl", "CN", "CCl", "C[Mg]Br", "CB(O)O"]
 
 
 def check_cross(case, res):
@@ -400,3 +400,11 @@ def replay(case, spec):
 
 
 KNOWN_PREDICATES = {}
+
+
+def evidence_extra(classes):
+    """which configured rules were exercised (reported by a successful merge) and which never fired in this run"""
+    merge_cfg, expand_cfg, comp_cfg = rule_config()
+    names = list(merge_cfg) + list(expand_cfg) + list(comp_cfg)
+    hit = {n: classes.get("rule:" + n, 0) for n in names}
+    return {"rules_exercised": {k: v for k, v in hit.items() if v}, "rules_never_reported": [k for k, v in hit.items() if not v]}
